@@ -7,7 +7,7 @@ import struct
 
 from hypothesis import strategies as st
 
-from vlib import wire
+from vlib import wire, fakenet
 from vlib.runner import mkres
 
 ID = 'C10'
@@ -195,11 +195,18 @@ def _eval_case(case):
         # the packets the (explicitly requested) DoS test builds by hand: framed per RFC 4253 6, and the string inside
         # announces exactly the bytes that follow, for every algorithm and every length setting
         from ssh_audit.dheat import DHEat
-        d = DHEat.__new__(DHEat)
+        from ssh_audit.auditconf import AuditConf
+        from ssh_audit.ssh2_kex import SSH2_Kex
+        from ssh_audit.outputbuffer import OutputBuffer
+        # the object is built the way the tool builds it (constructor, then generate_kex for the algorithm chosen)
+        kex = SSH2_Kex.parse(OutputBuffer(), wire.kexinit([case['alg'].encode(), b'curve25519-sha256'], [b'ssh-ed25519'], [b'aes128-ctr'], [b'hmac-sha2-256'])[1:])
+        with fakenet.FakeNet().installed():
+            d = DHEat(OutputBuffer(), AuditConf('192.0.2.1', 22), None, kex)
+        d.generate_kex(case['alg'])
         d.e_rand_len = case['elen']
-        d.kex_init_body = wire.kexinit([b'curve25519-sha256'], [b'ssh-ed25519'], [b'aes128-ctr'], [b'hmac-sha2-256'])[17:]
         nt = True
-        pkts = [('kexdh-init', d.make_dh_kexinit(case['alg']), 30), ('gex-init', d.make_dh_kexinit(case['alg'], gex_msb=case['msb']), 32), ('gex-request', d.make_gex_request(case['bits']), 34), ('kexinit', d.make_kexinit(), 20)]
+        pkts = [('kexdh-init', d.make_dh_kexinit(case['alg']), 30), ('gex-init', d.make_dh_kexinit(case['alg'], gex_msb=case['msb']), 32), ('gex-request', d.make_gex_request(case['bits']), 34)]
+        pkts += [('kexinit', d.make_kexinit(), 20) for _ in range(1500 if case['elen'] == 0 else 3)]      # (its cookie is random: many of them)
         for what, raw, mtype in pkts:
             pl, problems = wire.check_packet_framing(raw)
             if problems or pl is None:
@@ -215,9 +222,13 @@ def _eval_case(case):
                 fails.append(['dheat-gex-request', pl.hex()])
             if what == 'kexinit':
                 try:
-                    wire.parse_kexinit(pl, strict=True)
+                    k2 = wire.parse_kexinit(pl, strict=True)
+                    if k2['kex'] != [case['alg'].encode()]:
+                        fails.append(['dheat-kexinit-does-not-parse', 'key exchanges %r' % (k2['kex'][:3],)])
+                        break
                 except ValueError as e:
                     fails.append(['dheat-kexinit-does-not-parse', str(e)])
+                    break
     elif k == 'kexinit_long':
         # one very long name-list inside a whole KEXINIT: parse -> same names; write -> same bytes
         from ssh_audit.ssh2_kex import SSH2_Kex
